@@ -390,7 +390,7 @@ def _done_edges(ctx: Ctx, fn: FuncInfo, fvar: str) -> list[tuple[int, int]]:
     return out
 
 
-@rule('C11.FUTURE-PAIRING', ['C11', 'C05', 'C04'])
+@rule('C11.FUTURE-PAIRING', ['C11', 'C05', 'C04', 'C10'])
 def future_pairing(ctx: Ctx):
     """Typestate pairing in the executor: an entry leaves the running map only together with a terminal
     transition of its future (or when the future is already done), and every terminal transition of a
@@ -486,7 +486,7 @@ def future_pairing(ctx: Ctx):
         raise AnalysisError('no removal from the running map found in the executor')
 
 
-@rule('C11.DEAD-DETECT', ['C11', 'C01', 'C10'])
+@rule('C11.DEAD-DETECT', ['C11', 'C01', 'C10', 'C05', 'C04'])
 def dead_detect(ctx: Ctx):
     """Liveness is sampled (as `not process.is_alive()`) over all running entries before the result
     queue is drained, and every sampled-dead future that is not done afterwards fails with TaskDiedError."""
@@ -624,7 +624,7 @@ def drain_bounded(ctx: Ctx):
         raise AnalysisError('no result-queue drain loop found in the executor')
 
 
-@rule('C05.TOPUP', ['C05'])
+@rule('C05.TOPUP', ['C05', 'C11'])
 def topup(ctx: Ctx):
     """Pending futures are started at submit time and again at wait time after finished work freed its
     slots; the runner reaches the executor on every normal path."""
